@@ -8,15 +8,18 @@ import (
 	"encoding/xml"
 	"errors"
 	"reflect"
+	"runtime"
 	"strconv"
 	"sync"
 	"sync/atomic"
+	"unsafe"
 
 	"bytes"
 	"fmt"
 	"strings"
 	"time"
 
+	"go.lstv.dev/util/constraint"
 	"go.lstv.dev/util/date"
 	"go.lstv.dev/util/roman"
 	"go.lstv.dev/util/sem"
@@ -742,7 +745,7 @@ func runC17(c *rt.Ctx) {
 	c17Configured(c)
 	c.Require("configured-parser-call", 24)
 	c.Parallel("pair-helpers", 0, func(w *rt.W) {
-		texts := []string{"1.0.0-rc.1+b7", "v1.0.0-rc.1+b7", "1.0.0-rc.1+other", "v1.0.0-rc.1", "1.0.0-rc.1", "1.0.0", "v1.0.0+x", "2.0.0-a.b", "v2.0.0-a.b+c", "1.2", "v1.0.0-rc.2+b7"}
+		texts := []string{"1.0.0-rc.1+b7", "v1.0.0-rc.1+b7", "1.0.0-rc.1+other", "v1.0.0-rc.1", "1.0.0-rc.1", "1.0.0", "v1.0.0+x", "2.0.0-a.b", "v2.0.0-a.b+c", "1.2", "v1.0.0-rc.2+b7", "", "x", "1.0.0-01", strings.Repeat("1", 1100) + ".0.0"}
 		for i := w.Shard; i < len(texts); i += w.NShards {
 			for _, tb := range texts {
 				c17PairHelpers(w, texts[i], tb)
@@ -750,6 +753,8 @@ func runC17(c *rt.Ctx) {
 		}
 	})
 	c.Require("pair-helper-on-byte-slices", 300)
+	c.Require("pair-helper-on-mixed-types", 700)
+	c17AddressReuse(c)
 	c.Serial("discovered-methods", c17DiscoveredAll)
 	for _, t := range []string{"date", "roman", "sem", "size", "uu"} {
 		c.Require("discovered-method-call:"+t, 10)
@@ -766,6 +771,27 @@ func runC17(c *rt.Ctx) {
 
 // c17PairHelpers: the two-argument helpers of sem given byte slices. The returned version must equal what the same
 // texts give as strings, and must stay what it is when the caller overwrites its buffers afterwards.
+// c17PairMix runs the five two-argument helpers whose arguments may have different types on one instantiation.
+func c17PairMix[A, B constraint.ParserInput](a A, b B) (out [5][2]string) {
+	rec := func(i int, v any, err error) {
+		out[i][0] = fmt.Sprintf("%+v", v)
+		if err != nil {
+			out[i][1] = err.Error()
+		}
+	}
+	v, err := sem.Latest(a, b)
+	rec(0, v, err)
+	v, err = sem.LatestTag(a, b)
+	rec(1, v, err)
+	v, err = sem.LatestVersion(a, b)
+	rec(2, v, err)
+	n, err := sem.Compare(a, b)
+	rec(3, n, err)
+	n, err = sem.CompareTag(a, b)
+	rec(4, n, err)
+	return out
+}
+
 func c17PairHelpers(w *rt.W, ta, tb string) {
 	type hf struct {
 		name string
@@ -799,6 +825,128 @@ func c17PairHelpers(w *rt.W, ta, tb string) {
 		}
 		w.ClassN("pair-helper-on-byte-slices", 1)
 	}
+	// the two arguments need not have the same type: every mix gives the values and the messages of (string, string)
+	want := c17PairMix(ta, tb)
+	mixes := []struct {
+		name string
+		run  func() [5][2]string
+	}{
+		{"(string, []byte)", func() [5][2]string { return c17PairMix(ta, []byte(tb)) }},
+		{"([]byte, string)", func() [5][2]string { return c17PairMix([]byte(ta), tb) }},
+		{"([]byte, []byte)", func() [5][2]string { return c17PairMix([]byte(ta), []byte(tb)) }},
+		{"(named string, []byte)", func() [5][2]string { return c17PairMix(nStr(ta), []byte(tb)) }},
+		{"(string, named []byte)", func() [5][2]string { return c17PairMix(ta, nBytes(tb)) }},
+		{"(named []byte, named string)", func() [5][2]string { return c17PairMix(nBytes(ta), nStr(tb)) }},
+		{"(json.RawMessage, json.Number)", func() [5][2]string { return c17PairMix(json.RawMessage(ta), json.Number(tb)) }},
+	}
+	for _, m := range mixes {
+		var got [5][2]string
+		panicked, msg := rt.Call(func() { got = m.run() })
+		w.Eval(5)
+		if panicked {
+			w.Fail("panic-sem-pair-mixed-types", "pairhelpers", rt.Args("a", ta, "b", tb, "types", m.name), "panic: "+firstLine(msg), "five results", "a two-argument helper panicked")
+			continue
+		}
+		for i, name := range []string{"Latest", "LatestTag", "LatestVersion", "Compare", "CompareTag"} {
+			if got[i] != want[i] {
+				key := "mixed-types-disagree-value-sem-pair"
+				if got[i][0] == want[i][0] {
+					key = "mixed-types-disagree-error-text-sem-pair"
+				}
+				w.Fail(key, "pairhelpers", rt.Args("helper", name, "a", ta, "b", tb, "types", m.name), fmt.Sprintf("%s: (%s, %q)", m.name, got[i][0], got[i][1]), fmt.Sprintf("(string, string): (%s, %q)", want[i][0], want[i][1]), name+": the same two texts given as "+m.name+" must give the value and the error message of (string, string)")
+			}
+		}
+		w.ClassN("pair-helper-on-mixed-types", 1)
+	}
+}
+
+var c17Keep []string
+
+func c17HeapString(text string) string {
+	b := make([]byte, 0, len(text))
+	b = append(b, text...)
+	s := string(b)
+	c17Keep = append(c17Keep, s)
+	return s
+}
+
+func c17Addr(s string) uintptr { return *(*uintptr)(unsafe.Pointer(&s)) }
+
+// c17AddressReuse: a string is parsed, dropped and collected; the allocator hands its memory to another text of the
+// same length, which is parsed next. A string's address and length identify a text only while that string is alive.
+func c17AddressReuse(c *rt.Ctx) {
+	pairs := []struct {
+		pkg           string
+		first, second string
+		parse         func(s string) (string, string) // result from the string, result from its bytes
+	}{
+		{"roman", strings.Repeat("M", 40) + "III", strings.Repeat("M", 40) + "VII", func(s string) (string, string) {
+			a, ea := roman.DefaultParser(s, 0)
+			b, eb := roman.DefaultParser([]byte(s), 0)
+			return fmt.Sprint(uint64(a), ea), fmt.Sprint(uint64(b), eb)
+		}},
+		{"roman-short", "MCMXCIV", "MCMXCVI", func(s string) (string, string) {
+			a, ea := roman.DefaultParser(s, 0)
+			b, eb := roman.DefaultParser([]byte(s), 0)
+			return fmt.Sprint(uint64(a), ea), fmt.Sprint(uint64(b), eb)
+		}},
+		{"date", "2021-02-28", "1999-12-31", func(s string) (string, string) {
+			a, ea := date.DefaultParser(s, 0)
+			b, eb := date.DefaultParser([]byte(s), 0)
+			return fmt.Sprint(a, ea), fmt.Sprint(b, eb)
+		}},
+		{"sem", "1.2.3-rc.1+build.aaaaaaaaaaaaaaaaaaaaaaaaaaaaaa", "4.5.6-rc.2+build.bbbbbbbbbbbbbbbbbbbbbbbbbbbbbb", func(s string) (string, string) {
+			a, ea := sem.Parse(s)
+			b, eb := sem.Parse([]byte(s))
+			return fmt.Sprintf("%+v %v", a, ea), fmt.Sprintf("%+v %v", b, eb)
+		}},
+		{"size", "  1 234 567 890 123 kB                    ", "  9 876 543 210 987 kB                    ", func(s string) (string, string) {
+			a, ea := size.DefaultParser(s, 0)
+			b, eb := size.DefaultParser([]byte(s), 0)
+			return fmt.Sprint(uint64(a), ea), fmt.Sprint(uint64(b), eb)
+		}},
+		{"uu", "f81d4fae-7dec-11d0-a765-00a0c91e6bf6", "0a1b2c3d-4e5f-4a7b-8c9d-0e1f2a3b4c5d", func(s string) (string, string) {
+			a, ea := uu.DefaultParser(s, 0)
+			b, eb := uu.DefaultParser([]byte(s), 0)
+			return fmt.Sprint(a, ea), fmt.Sprint(b, eb)
+		}},
+	}
+	reused := 0
+	c.Serial("address-reuse", func(w *rt.W) {
+		for _, p := range pairs {
+			for round := 0; round < 3; round++ {
+				first := c17HeapString(p.first)
+				fs, fb := p.parse(first)
+				w.Eval(2)
+				if fs != fb {
+					w.Fail("string-and-bytes-disagree-after-address-reuse:"+p.pkg, "addrreuse", rt.Args("package", p.pkg, "text", p.first), fs, fb, "string and bytes of the same text parse differently")
+				}
+				firstAddr := c17Addr(first)
+				first = ""
+				c17Keep = nil
+				runtime.GC()
+				runtime.GC()
+				for i := 0; i < 300000; i++ {
+					s := c17HeapString(p.second)
+					if c17Addr(s) != firstAddr {
+						continue
+					}
+					reused++
+					gs, gb := p.parse(s)
+					w.Eval(2)
+					if gs != gb {
+						w.Fail("string-and-bytes-disagree-after-address-reuse:"+p.pkg, "addrreuse", rt.Args("package", p.pkg, "text", p.second, "previous_text_at_this_address", p.first), "string: "+gs, "bytes: "+gb,
+							"the string occupies the memory of a collected string of the same length that was parsed before; it must parse like its own bytes")
+					}
+					c17Instantiations(w, s)
+					w.ClassN("parsed-at-the-address-of-a-collected-string", 1)
+					break
+				}
+				c17Keep = nil
+			}
+		}
+	})
+	c.Extra("address_reuse", fmt.Sprintf("%d of %d attempts saw the allocator hand the address of a collected, parsed string to another text of the same length", reused, 3*len(pairs)))
 }
 
 func c17DiscoveredAll(w *rt.W) {
